@@ -66,7 +66,22 @@ pub fn bytes_to_words(bytes: &[u8]) -> &[u64] {
 ///
 /// Panics if `bytes.len()` is not a multiple of 8.
 pub fn bytes_to_words_vec(bytes: &[u8]) -> Vec<u64> {
-    bytes_to_words(bytes).to_vec()
+    assert!(
+        bytes.len() % 8 == 0,
+        "byte slice length must be a multiple of 8, got {}",
+        bytes.len()
+    );
+    // Decode chunk by chunk instead of casting the slice: `cast_slice` panics
+    // when `bytes` does not start on an 8-byte boundary (a sub-slice of a larger
+    // buffer, an mmap at an odd offset), and an owned copy has no reason to care.
+    bytes
+        .chunks_exact(8)
+        .map(|chunk| {
+            let mut word = [0u8; 8];
+            word.copy_from_slice(chunk);
+            u64::from_ne_bytes(word)
+        })
+        .collect()
 }
 
 /// Try to read u64 words from raw bytes.
